@@ -13,7 +13,7 @@
 (*   ShiftBits : on a sequence of 16 bits (index i+1 = stage Di) - the      *)
 (*               defining one;                                             *)
 (*   ShiftInt  : on the integer sum(Di * 2^i), shift/XOR arithmetic - the one    *)
-(*               used on long traces.  LfsrRepsAgree (checked by TLC over   *)
+(*               used on long traces.  LfsrRepsAgreeOn (checked by MCLfsr over  *)
 (*               all 2^16 states) proves them equal.                        *)
 (* Nothing here is derived from the gateware's parallel XOR equations.      *)
 (***************************************************************************)
@@ -45,7 +45,8 @@ ShiftInt(s) ==
         t   == (s % 32768) * 2 + d15
     IN IF d15 = 0 THEN t ELSE t ^^ TapMask
 
-LfsrRepsAgree == \A s \in 0..65535 : FromBits(ShiftBits(ToBits(s))) = ShiftInt(s)
+\* (an operator with a parameter, so that TLC does not pre-evaluate it as a constant in every run)
+LfsrRepsAgreeOn(S) == \A s \in S : FromBits(ShiftBits(ToBits(s))) = ShiftInt(s)
 
 -----------------------------------------------------------------------------
 (* One Symbol: eight serial shifts; key bit j (scrambling bit j of the Symbol) is D15 *)
